@@ -72,8 +72,10 @@ def _kernel_fingerprint(f):
     fills = [c for c in calls if isinstance(c.func, ast.Attribute) and c.func.attr == "masked_fill" and len(c.args) == 2]
     gath = [c for c in calls if isinstance(c.func, ast.Attribute) and c.func.attr == "gather" and len(c.args) == 2]
     # index := 0 under the mask: a masked_fill(oov-derived mask, 0) of the tokens that reaches a gather index
-    idx_fill = [c for c in fills if u(c.args[1]) == "0" and from_oov(c.args[0]) and any(
-        isinstance(x, ast.Name) and x.id == tok for x in ast.walk(c.func.value))]
+    def is_tokens(e):  # the token tensor itself, or a copy / re-layout of it
+        return any(isinstance(x, ast.Name) and x.id == tok for x in ast.walk(e)) or any(
+            isinstance(x, ast.Name) and x.id == tok for x in rd.derives(e).nodes())
+    idx_fill = [c for c in fills if u(c.args[1]) == "0" and from_oov(c.args[0]) and is_tokens(c.func.value)]
     if idx_fill and any(any(x is idx_fill[0] for x in rd.derives(g.args[1]).nodes()) or any(x is idx_fill[0] for x in ast.walk(g.args[1])) for g in gath):
         steps.append("index:=0 under mask")
     if gath and any(any(isinstance(x, ast.Name) and x.id == tok for x in rd.derives(g.args[1]).nodes()) or tok in u(g.args[1]) for g in gath):
@@ -191,6 +193,15 @@ def run(ctx: Ctx):
                     dims.add(u(v_.args[0]))
                 else:
                     dims.add("?" + u(v_)[:30] if v_ is not None else "?")
+        # the packed kernel works on the data of a PackedSequence of (T, N, C) scores, which is 2-dimensional: there axis 1 and
+        # axis -1 are the same axis (in the padded kernel the rank is not fixed and only the spelling can be compared)
+        if kf is kp:
+            def _m2(d_):
+                try:
+                    return str(int(d_) % 2)
+                except (TypeError, ValueError):
+                    return d_
+            dims, gd, sd = {_m2(d_) for d_ in dims}, _m2(gd), _m2(sd)
         ok = bool(dims) and dims <= {gd, sd} - {None}
         col.ob("G12", "S2", f"{rel}::{kf.qualname}::oov-bound-is-the-class-axis-extent", ok,
                f"tokens are out of vocabulary when >= the extent of dimension {sorted(dims)} of the scores, but the scores are "
@@ -231,10 +242,13 @@ def run(ctx: Ctx):
         gath = [c for c in own_calls(kf.node) if isinstance(c.func, ast.Attribute) and c.func.attr == "gather"]
         idx_ok = False
         for c in gath:
-            for nm in ast.walk(c.args[-1]) if c.args else ():
-                if isinstance(nm, ast.Name) and nm.id == tok:
-                    ds = list(rdk.defs_of(nm))
-                    idx_ok = len(ds) == 1 and ds[0].kind == "assign" and "masked_fill" in u(ds[0].value)
+            # the gather index is a zero-filled version of the tokens (whatever the copy is called)
+            if c.args:
+                dg = rdk.derives(c.args[-1])
+                zf = any(isinstance(x.func, ast.Attribute) and x.func.attr.startswith("masked_fill") for x in list(dg.calls()) + [
+                    y for y in ast.walk(c.args[-1]) if isinstance(y, ast.Call)])
+                tk = any(isinstance(x, ast.Name) and x.id == tok for x in list(dg.nodes()) + list(ast.walk(c.args[-1])))
+                idx_ok = idx_ok or (zf and tk)
         col.ob("G16", "S2", f"{rel}::{kf.qualname}::eos-and-oov-read-the-given-tokens", not bad_uses and len(raw_uses) >= 2 and idx_ok,
                f"`{[u(c)[:50] for c in bad_uses]}` read{'s' if len(bad_uses) == 1 else ''} the token tensor after its out-of-vocabulary positions were "
                f"overwritten with 0 (gather index from the zeroed copy: {idx_ok}); with eos == 0 an out-of-vocabulary "
@@ -262,9 +276,15 @@ def run(ctx: Ctx):
                     v_ = inl_g.expand(c.args[1])
                     if isinstance(v_, ast.Constant) and isinstance(v_.value, (int, float)) and not isinstance(v_.value, bool):
                         ent["fill"] = str(float(v_.value))
-                elif c.func.attr in ("prod", "sum") and c.args and any(
-                        isinstance(x.func, ast.Attribute) and x.func.attr == "max" for x in inl_g.rd.derives(c.func.value).calls()):
-                    ent["reduce"] = c.func.attr
+        # the reduction of the score: the outermost prod / sum of the first returned value (other sums - the output lengths - are
+        # not the score's)
+        for r_ in ast.walk(gnode):
+            if isinstance(r_, ast.Return) and isinstance(r_.value, ast.Tuple) and r_.value.elts:
+                x_ = inl_g.expand(r_.value.elts[0])
+                if isinstance(x_, ast.Call) and isinstance(x_.func, ast.Attribute) and x_.func.attr in ("prod", "sum"):
+                    ent["reduce"] = x_.func.attr
+                elif isinstance(x_, ast.Call) and call_name(x_) in ("torch.prod", "torch.sum"):
+                    ent["reduce"] = call_name(x_).split(".")[-1]
         table[flag] = ent
     col.ob("G13", "S3", f"{rel}::ctc_greedy_search::neutral-elements", table == {True: {"fill": "1.0", "reduce": "prod"}, False: {"fill": "0.0", "reduce": "sum"}},
            f"frames beyond the valid length are filled / reduced as {table}; probabilities need (1.0, prod), log-"
